@@ -94,6 +94,11 @@ def families(thorough):
                 s.append(Case(list(pre) + ['code:' + body], stop='eof', cache=cache))
                 if thorough:
                     s.append(Case(list(pre) + ['code:' + body, 'select'], stop='X', cache=cache))
+    # (a session that had altered its connection -- SET outside a transaction, in either pool mode -- when the malformed message arrives)
+    for mode in ('session', 'transaction'):
+        for body in MALFORMED_BODIES[:(None if thorough else 2)]:
+            s.append(Case(['set', 'code:' + body], stop='eof', cache=4, mode=mode))
+    s.append(Case(['set', 'raw:4300000004'], stop='eof', cache=2, mode='session'))
     F['malformed'] = s
     # -- the client's socket drops inside a message
     s = []
